@@ -496,6 +496,91 @@ func parseSpec(ans string) map[string]string {
 	return out
 }
 
+// tdVerdict is the specification's verdict for one typedef statement (driver: `tdItem`).
+type tdVerdict struct {
+	Key     string   // position of the typedef statement
+	V       string   // OK | ERR | NOCLAIM:<why>
+	Direct  string   // ERR: position of the typedef's type statement when its own name is unbound, else "-"
+	Closure []string // ERR: positions of the statements of the derivation
+}
+
+func parseSpecTD(ans string) []tdVerdict {
+	f := strings.Fields(ans)
+	if len(f) == 0 || f[0] != "ok" {
+		return nil
+	}
+	i := 1
+	for i+2 < len(f) && f[i] == "L" {
+		i += 3
+	}
+	var out []tdVerdict
+	for i+2 < len(f) && f[i] == "D" {
+		v := tdVerdict{Key: f[i+1], V: f[i+2]}
+		i += 3
+		if v.V == "ERR" && i+1 < len(f) {
+			v.Direct = f[i]
+			n := 0
+			fmt.Sscanf(f[i+1], "%d", &n)
+			i += 2
+			if i+n > len(f) {
+				break
+			}
+			v.Closure = append([]string{}, f[i:i+n]...)
+			i += n
+		}
+		out = append(out, v)
+	}
+	return out
+}
+
+// specCheckTD: the typedef statements themselves, used by a leaf or not.  For every typedef
+// statement of the schema (any scope) whose type is unknown, unresolvable or cyclic by the
+// specification, Process() must report an error positioned at it: exactly at the typedef's type
+// statement, with class unknown-type / unknown-prefix, when that statement's own name is unbound;
+// else at some statement of its derivation (the typedef, its type statement and what is below it,
+// the typedefs that names and their type statements, ...).
+func specCheckTD(g goRes, tds []tdVerdict) []string {
+	if g.Panic != "" || g.ParseErr != "" {
+		return nil
+	}
+	at := map[string][]string{}
+	for _, e := range g.P1 {
+		if i := strings.LastIndex(e, ":"); i > 0 {
+			at[e[:i]] = append(at[e[:i]], e[i+1:])
+		}
+	}
+	var bad []string
+	for _, v := range tds {
+		if v.V != "ERR" {
+			continue
+		}
+		if v.Direct != "-" {
+			ok := false
+			for _, cls := range at[v.Direct] {
+				if cls == "unknown-type" || cls == "unknown-prefix" {
+					ok = true
+				}
+			}
+			if !ok {
+				bad = append(bad, fmt.Sprintf("typedef %s: 'an unknown, unresolvable or cyclic type reference is an error' (wherever the reference stands, also as the type of a typedef no leaf uses): the name in the type statement %s of this typedef denotes no typedef and no built-in type, but Process() reports no unknown type / unknown prefix there (it reports %v)", v.Key, v.Direct, head(g.P1, 6)))
+			}
+			continue
+		}
+		ok := false
+		for _, p := range v.Closure {
+			if len(at[p]) > 0 {
+				ok = true
+				break
+			}
+		}
+		if !ok {
+			bad = append(bad, fmt.Sprintf("typedef %s: 'an unknown, unresolvable or cyclic type reference is an error' (wherever the reference stands, also as the type of a typedef no leaf uses): the derivation of this typedef's type is cyclic or reaches an unknown name, but Process() reports no error at any statement of the derivation %v (it reports %v)", v.Key, head(v.Closure, 8), head(g.P1, 6)))
+		}
+	}
+	sort.Strings(bad)
+	return bad
+}
+
 // ---------------------------------------------------------------------------------------------
 // comparison
 
@@ -744,6 +829,19 @@ func main() {
 	}
 	nCorpusPacked := len(pk.cases)
 	cases = append(cases, pk.cases...)
+	// typedef statements nobody uses, with every kind of fault at every kind of scope (utd.go)
+	utd := utdExhaustive()
+	nUtd := 240
+	if f.Thorough() {
+		nUtd = 8000
+	}
+	{
+		r := f.Rand(7003)
+		for i := 0; i < nUtd; i++ {
+			utd = append(utd, utdRandom(r, fmt.Sprintf("utd/rnd/%d", i)))
+		}
+	}
+	cases = append(cases, utd...)
 	exh := exhaustiveCases()
 	cases = append(cases, exh...)
 	col := collisionCases()
@@ -799,7 +897,7 @@ func main() {
 	// packagings of a share of each generated group
 	{
 		r := f.Rand(7001)
-		every := map[string]int{"exh": 8, "col": 6, "rnd": 8, "odd": 4, "chain": 8, "rev": 8, "hist": 8}
+		every := map[string]int{"exh": 8, "col": 6, "rnd": 8, "odd": 4, "chain": 8, "rev": 8, "hist": 8, "utd": 6}
 		count := map[string]int{}
 		for _, c := range cases {
 			grp := strings.SplitN(c.ID, "/", 2)[0]
@@ -840,6 +938,7 @@ func main() {
 	status := map[string]int64{}
 	groupStats := map[string]int64{}
 	noClaimWhy := map[string]int64{}
+	tdStats := map[string]int64{}
 	var oddStatus []string
 	var leaves, viaTypedef, bindErrs, specT, specErr, specNo int64
 	evaluated := 0
@@ -971,6 +1070,23 @@ func main() {
 			}
 			diffs := compare(g, m)
 			sbad := specCheck(g, spec)
+			tds := parseSpecTD(sans[i])
+			for _, v := range tds {
+				switch {
+				case v.V == "ERR" && v.Direct != "-":
+					tdStats["error_required_at_the_type_statement"]++
+					groupStats[grp+"_spec_typedef_error_required"]++
+				case v.V == "ERR":
+					tdStats["error_required_in_the_derivation"]++
+					groupStats[grp+"_spec_typedef_error_required"]++
+				case v.V == "OK":
+					tdStats["resolvable"]++
+				default:
+					tdStats["no_claim"]++
+				}
+			}
+			sbad = append(specCheckTD(g, tds), sbad...)
+			sbad = append(sbad, utdPlantedCheck(c, g)...)
 			if len(diffs) == 0 && len(sbad) == 0 {
 				continue
 			}
@@ -1038,6 +1154,7 @@ func main() {
 	res.Rule = "distinct schema sets (by content and distribution of the statements over source texts) in which at least one leaf resolves through a typedef (resolved name differs from the base kind) or is rejected with a binding error (unknown type, unknown prefix, cycle); every case = load all files, Process() twice (history cases: then load further files - other revisions of an imported module - into the same Modules and Process() twice again; the model answers for all texts together, i.e. for a fresh load), dump Entry.Type / DefaultValues / Errors of every leaf entry (Dir, rpc input/output, augments) and Type.YangType of every AST leaf, compared with the model's per-statement answer and with the specification's binding + inheritance"
 	res.Distribution["corpus_cases"] = len(corpus)
 	res.Distribution["exhaustive_binding_cases"] = len(exh)
+	res.Distribution["unused_typedef_cases_scope_x_fault_x_alone_or_next_to_used_then_random"] = len(utd)
 	res.Distribution["exhaustive_prefix_vs_module_name_cases"] = len(col)
 	res.Distribution["random_cases"] = nRandom / shards * shards
 	res.Distribution["odd_cases"] = nOdd / shards * shards
@@ -1053,6 +1170,7 @@ func main() {
 	res.Distribution["cases_not_loaded_by_either_side"] = oddStatus
 	res.Distribution["spec_verdicts_by_group"] = groupStats
 	res.Distribution["spec_no_claim_reasons"] = noClaimWhy
+	res.Distribution["spec_verdicts_for_typedef_statements"] = tdStats
 	res.Distribution["leaves_compared"] = leaves
 	res.Distribution["leaves_resolved_through_typedefs"] = viaTypedef
 	res.Distribution["leaves_with_binding_errors"] = bindErrs
@@ -1063,6 +1181,7 @@ func main() {
 		"a cyclic definition is compared by class only: which statement of the cycle is named depends on where the memoising traversal entered it first",
 		"sets in which an include/import does not resolve are compared only on Process() reporting it",
 		"packagings: every corpus set of two or more files in every load order (up to 3 files; identity, reverse and rotations beyond), and a share of every generated group (1 in 4 to 8; all scope/ cases), is loaded again with the same statements cut into source texts differently: all in one text, a module with its submodule in one text, an importer with an imported module in one text; a packaged case is compared with the model and judged by the specification like any other, and its Go observation (types, defaults, errors per leaf, Process() errors; positions mapped back) with that of the one-statement-per-text form in the same load order",
+		"typedef statements themselves (specification verdict per typedef statement, any scope, used or not): where the type of a typedef is unknown, unresolvable or cyclic by lexical binding, Process() must report an error at it - exactly at the typedef's type statement (class unknown type / unknown prefix) when that statement's own name is unbound, else at some statement of the derivation; utd/ cases: 12 scope shapes (module, submodule, container, list, used and unused grouping, rpc, input, output, notification, action, grouping in a list in a container) x 19 typedef groups (2 controls; unknown name plain / own prefix / foreign prefix, unknown prefix, a name visible only in a sibling scope or in a nested scope of the imported module, cycles of length 1-3 directly and through unions, chain to an unknown name, unknown union member, dependence on a cyclic typedef, bad range / length / range outside the base / fraction-digits on an integer) x alone or next to a used typedef, then random combinations of 1-3 scopes (also in the submodule's text; also next to an unused good typedef, or used by a leaf itself), files in random order; the restriction faults of the utd/ texts are also judged by construction (utdPlantedCheck: Process() must report an error at the descending range / length, the range outside int8, the type statement with fraction-digits on int16), independent of the model",
 		"multi-revision cases: module b in 2-3 revisions with differing same-named typedefs, imports pinned by revision-date / unpinned / pinned to an absent revision, one or two imports of b per importer, references direct, through typedefs of typedefs, unions and a third module")
 	res.Write(f.Out)
 }
@@ -1124,7 +1243,8 @@ func replay(f *lib.Flags) {
 	sans, _ := d.Ask("spec.types " + w)
 	m := parseModel(ans)
 	diffs := compare(g, m)
-	sbad := specCheck(g, parseSpec(sans))
+	sbad := append(specCheckTD(g, parseSpecTD(sans)), specCheck(g, parseSpec(sans))...)
+	sbad = append(sbad, utdPlantedCheck(c, g)...)
 	for _, fl := range c.Files {
 		fmt.Printf("--- %s\n%s\n", fl.Name, fl.Text)
 	}
@@ -1158,7 +1278,7 @@ func replay(f *lib.Flags) {
 		}
 		if rw, err := wire(*c.Versus); err == nil {
 			rsans, _ := d.Ask("spec.types " + rw)
-			for _, x := range specCheck(rg, parseSpec(rsans)) {
+			for _, x := range append(specCheckTD(rg, parseSpecTD(rsans)), specCheck(rg, parseSpec(rsans))...) {
 				fmt.Println("SPEC VIOLATED (one statement per text):", x)
 				v = "violates"
 			}
